@@ -128,14 +128,49 @@ def _is_none_test(test, expr_text, polarity):
     return False
 
 
+def _bool_locals(func):
+    """{name: expression} for locals assigned exactly once (`has_limit = query.limit is not None`): a test on the local is a
+    test on that expression as long as nothing it reads is re-assigned in between (the slot read is an attribute path that the
+    function does not assign)"""
+    if func is None or isinstance(func, ast.Lambda):
+        return {}
+    defs: dict = {}
+    for n in ast.walk(func):
+        if isinstance(n, ast.Assign) and len(n.targets) == 1 and isinstance(n.targets[0], ast.Name):
+            defs.setdefault(n.targets[0].id, []).append(n.value)
+    return {k: v[0] for k, v in defs.items() if len(v) == 1 and isinstance(v[0], (ast.Compare, ast.BoolOp, ast.UnaryOp))}
+
+
+class _Expand(ast.NodeTransformer):
+    def __init__(self, mapping):
+        self.mapping = mapping
+
+    def visit_Name(self, node):
+        if isinstance(node.ctx, ast.Load) and node.id in self.mapping:
+            import copy
+
+            return copy.deepcopy(self.mapping[node.id])
+        return node
+
+
 def guarded(node, expr_text, func):
     stop = func if func is not None else None
+    locals_ = _bool_locals(func)
+    assigned_paths = {norm(t) for n in ast.walk(func) if isinstance(n, ast.Assign) for t in n.targets} if func is not None and not isinstance(func, ast.Lambda) else set()
+
+    def expand(t):
+        if locals_ and expr_text not in assigned_paths and any(isinstance(x, ast.Name) and x.id in locals_ for x in ast.walk(t)):
+            import copy
+
+            return _Expand(locals_).visit(copy.deepcopy(t))
+        return t
+
     for t, pol in dominating_tests(node, stop):
-        if _is_none_test(t, expr_text, pol):
+        if _is_none_test(expand(t), expr_text, pol):
             return True
     if func is not None:
         for t, pol in preceding_guards(node, func):
-            if _is_none_test(t, expr_text, pol):
+            if _is_none_test(expand(t), expr_text, pol):
                 return True
     return False
 
